@@ -935,8 +935,23 @@ class Variable(CanBehaveLikeAVariable[T]):
             yield from self._yield_from_cache_or_instantiate_new_values_(sources)
 
     def _generate_combinations_for_child_vars_values_(self, sources: Optional[Dict[int, HashedValue]] = None):
-        kwargs_generators = {k: v._evaluate__(sources) for k, v in self._child_vars_.items()}
-        yield from generate_combinations(kwargs_generators)
+        yield from self._bind_child_vars_(copy(sources) if sources else {}, list(self._child_vars_.items()), {})
+
+    def _bind_child_vars_(self, bindings: Dict[int, HashedValue], child_vars: List[Tuple[str, SymbolicExpression]],
+                          bound: Dict[str, Dict[int, HashedValue]]) -> Iterable[Dict[str, Dict[int, HashedValue]]]:
+        """
+        Evaluate the constructor arguments one after the other, each under the bindings made so far, such that
+        arguments that share a variable the conditions did not bind stay correlated (they are all evaluated under the
+        same assignment) while unrelated ones are combined freely.
+        """
+        if not child_vars:
+            yield dict(bound)
+            return
+        (name, child_var), remaining = child_vars[0], child_vars[1:]
+        for value in child_var._evaluate__(copy(bindings)):
+            new_bindings = copy(bindings)
+            new_bindings.update(value)
+            yield from self._bind_child_vars_(new_bindings, remaining, {**bound, name: value})
 
     def _yield_from_cache_or_instantiate_new_values_(self, sources: Optional[Dict[int, HashedValue]] = None,
                                                      kwargs: Dict[str, Dict[int, HashedValue]] = None):
